@@ -385,7 +385,7 @@ var uvSpecs = []*uvSpec{
 		name: "Poisson", discrete: true,
 		gen: func(t *rapid.T) []float64 {
 			if rapid.IntRange(0, 3).Draw(t, "lcls") == 0 {
-				return []float64{rapid.SampledFrom([]float64{1, 9, 9.99, 10, 10.01, 11, 100, 200}).Draw(t, "lbnd")}
+				return []float64{rapid.SampledFrom([]float64{1, 9, 9.99, 10, 10, 10.01, 10.5, 11, 100, 200}).Draw(t, "lbnd")}
 			}
 			return []float64{logUniform(t, "lambda", 0.01, 200)}
 		},
